@@ -126,6 +126,7 @@ var c07Seq = Check[seqCase]{
 
 type c07StreamCase struct {
 	S StreamM
+	D Delivery
 }
 
 func scanAlone(b []byte) (*stack.Snapshot, error) {
@@ -134,7 +135,7 @@ func scanAlone(b []byte) (*stack.Snapshot, error) {
 }
 
 func c07StreamOracle(c c07StreamCase) error {
-	h := resumeLoop(bytes.NewReader(c.S.Bytes()), plainOpts(), len(c.S.Items)+3)
+	h := resumeLoop(c.D.reader(c.S.Bytes()), plainOpts(), len(c.S.Items)+3)
 	if err := streamTruth(&c.S, &h, false); err != nil {
 		return err
 	}
@@ -184,7 +185,7 @@ func genAdjacentStream(t *rapid.T) StreamM {
 
 var c07Stream = Check[c07StreamCase]{
 	Prop: "C07", Name: "stream",
-	Gen:    func(t *rapid.T) c07StreamCase { return c07StreamCase{S: genAdjacentStream(t)} },
+	Gen:    func(t *rapid.T) c07StreamCase { return c07StreamCase{S: genAdjacentStream(t), D: genDelivery(t)} },
 	Oracle: c07StreamOracle,
 	Obs: func(c c07StreamCase) Obs {
 		o := streamObs(&c.S)
@@ -198,6 +199,10 @@ var c07Stream = Check[c07StreamCase]{
 			o.Classes = append(o.Classes, "adjacent_dumps")
 		}
 		o.Nontrivial = len(c.S.Items) >= 2
+		if c.D.EOFWithData {
+			o.Classes = append(o.Classes, "eof_with_data")
+		}
+		o.Digest = digestBytes(c.S.Bytes(), []byte(fmt.Sprint(c.D)))
 		return o
 	},
 }
